@@ -49,14 +49,14 @@ var Root = func() string {
 
 // Violation is one observed refutation of a property.
 type Violation struct {
-	Property  string `json:"property"`
-	Signature string `json:"signature"`
-	What      string `json:"what"`
-	Tier      string `json:"tier"`
-	Seed      int64  `json:"seed"`
-	Batch     int    `json:"batch"`
-	Case      int    `json:"case"`
-	CaseDesc  string `json:"case_desc"`
+	Property  string          `json:"property"`
+	Signature string          `json:"signature"`
+	What      string          `json:"what"`
+	Tier      string          `json:"tier"`
+	Seed      int64           `json:"seed"`
+	Batch     int             `json:"batch"`
+	Case      int             `json:"case"`
+	CaseDesc  string          `json:"case_desc"`
 	Detail    json.RawMessage `json:"detail,omitempty"`
 }
 
@@ -78,6 +78,9 @@ type Prop struct {
 	ChildTimeout func(tier string) time.Duration
 	// RaceBatches: additional batches run with the -race binary (batch index >= Batches(tier)).
 	RaceBatches func(tier string) int
+	// RaceChildTimeout, if set, is the watchdog for children of the -race build (a deadlock is not reported by that build:
+	// the child just hangs, so it should not wait as long as the plain children may).
+	RaceChildTimeout func(tier string) time.Duration
 	// Finish may add derived counters / checks after merge.
 	Finish func(m *Merged)
 	// Parallel limits concurrently running children (0 = NumCPU).
@@ -522,7 +525,11 @@ func RunDriver(id, tier string) int {
 				bin = raceBin
 			}
 			casesPath, resultPath, logPath := childPaths(id, tier, batch, race)
-			args := []string{"-s", "QUIT", "-k", "10", fmt.Sprintf("%d", int(timeout.Seconds())), bin, "child", id, tier,
+			to := timeout
+			if race && p.RaceChildTimeout != nil {
+				to = p.RaceChildTimeout(tier)
+			}
+			args := []string{"-s", "QUIT", "-k", "10", fmt.Sprintf("%d", int(to.Seconds())), bin, "child", id, tier,
 				strconv.FormatInt(seed, 10), strconv.Itoa(batch)}
 			cmd := exec.Command("timeout", args...)
 			lf, _ := os.Create(logPath)
